@@ -60,11 +60,15 @@ impl ControlMessage {
         let nr = unsafe { reader.read_u16_be_unchecked() };
 
         const FIXED_LENGTH: usize = 12;
-        if length as usize > reader.len() + FIXED_LENGTH {
+        if (length as usize) < FIXED_LENGTH {
+            return Err(vec![DecodeError::IncompleteControlMessageHeader]);
+        }
+        let payload_length = length as usize - FIXED_LENGTH;
+        if payload_length > reader.len() {
             return Err(vec![DecodeError::IncompleteControlMessagePayload]);
         }
 
-        let mut avp_reader = reader.subreader(length as usize - FIXED_LENGTH);
+        let mut avp_reader = reader.subreader(payload_length);
         let avp_and_err = AVP::try_read_greedy(&mut avp_reader);
 
         if let Some(first) = avp_and_err.first() {
